@@ -348,9 +348,13 @@ class SimEnv:
             buf.close()
             raise
 
+    manage_cwd = True  # histories set this to False: the working directory is process state that must
+    # be allowed to leak from one operation to the next (the history sets it once, at its start)
+
     def __enter__(self) -> "SimEnv":
         self._old_cwd = os.getcwd()
-        os.chdir(self.cwd)
+        if self.manage_cwd:
+            os.chdir(self.cwd)
         self._old_open = (builtins.open, io.open)
         builtins.open = self.sim_open  # type: ignore[assignment]
         io.open = self.sim_open  # type: ignore[assignment]
@@ -358,10 +362,11 @@ class SimEnv:
 
     def __exit__(self, *exc: Any) -> None:
         builtins.open, io.open = self._old_open  # type: ignore[assignment]
-        try:
-            os.chdir(self._old_cwd)
-        except OSError:
-            pass
+        if self.manage_cwd:
+            try:
+                os.chdir(self._old_cwd)
+            except OSError:
+                pass
 
     # -- summaries
     def points(self) -> list[tuple[str, str, int]]:
